@@ -151,6 +151,9 @@ Definition run_case (c : case) : result :=
      bit; `From<Bit>` of the two constants Zero, One; `Display` of Zero, One.  Bits are numbered Zero = 0, One = 1. *)
   | 97 => let b := match arg c 0 with 0 => 0 | _ => 1 end in
           Ok [IN b; IN (match b with 0 => 0 | _ => 1 end); IN 0; IN 1; IL [48]; IL [49]]
+  (* ---- verdict of an oracle that lives in the harness only (nothing of the crate is modelled here):
+     1 = the oracle agreed *)
+  | 99 => Ok [IN 1]
   | _ => OutOfFuel
   end.
 
